@@ -727,10 +727,12 @@ fn gen_tie(r: &mut Rng, ty: FloatTy, sw: &Swarm) -> (Vec<u8>, u64) {
     (s.into_bytes(), expect | sign_bit)
 }
 
-const SPECIAL_POOL: [&[u8]; 28] = [
+const SPECIAL_POOL: [&[u8]; 36] = [
     b"nan", b"NaN", b"NAN", b"+nan", b"-NaN", b"inf", b"INF", b"-inf", b"+Inf", b"infinity", b"Infinity", b"-INFINITY",
     b"+infinity", b"infinit", b"infinityx", b"nanx", b"na", b"in", b"i", b"n", b"-0.0", b"-0", b"+0.0", b"0e0", b"-0e-5",
     b"0.0e400", b"-0.000", b"nan0",
+    // letters of the special strings with bit 7 set, other look-alikes: none of these spells a special value
+    b"\xee\xe1\xee", b"\xce\xe1\xce", b"\xe9\xee\xe6", b"in\xe6", b"-infinit\xf9", b"n\xe1n", b"NA\xce", b"\x0eAN",
 ];
 
 const EDGE_POOL: [&[u8]; 22] = [
